@@ -138,6 +138,13 @@ func wireCase(rep *Report, s *glue.Subject, d MD, idx int) {
 	if idx%5 == 1 {
 		o.PFill = 0.9
 	}
+	// types embedding proto2 messages: every other case leaves required fields out and decodes with AllowPartial
+	partial := idx%2 == 1 && hasRequiredBelow(d)
+	o.OmitRequired = partial
+	wireAllowPartial = partial
+	if partial {
+		rep.Count("C03", "cases-with-allowpartial-and-missing-required-fields", 1)
+	}
 	g := NewGen(seed, o)
 	r := rand.New(rand.NewSource(seed ^ 0x77))
 	w := &WireGen{R: r, G: g, Unknown: true, NonMin: idx%2 == 0, Muts: map[string]int{}}
@@ -181,7 +188,7 @@ func wireCase(rep *Report, s *glue.Subject, d MD, idx int) {
 		} else {
 			dyn = dynamicpb.NewMessage(d)
 		}
-		derr := proto.UnmarshalOptions{Merge: true, DiscardUnknown: discard}.Unmarshal(stream, dyn)
+		derr := proto.UnmarshalOptions{Merge: true, DiscardUnknown: discard, AllowPartial: partial}.Unmarshal(stream, dyn)
 		if serr != nil || derr != nil {
 			rep.Inconclusive(prop, "stream-rejected-by-a-reference")
 			if len(rep.Notes) < 10 {
@@ -191,7 +198,7 @@ func wireCase(rep *Report, s *glue.Subject, d MD, idx int) {
 		}
 		want := SpecEncode(Canon(specRes))
 		wantQ := SpecEncode(quietF32(Canon(specRes)))
-		dynB, _ := detOpts.Marshal(dyn)
+		dynB, _ := proto.MarshalOptions{Deterministic: true, AllowPartial: partial}.Marshal(dyn)
 		if !bytes.Equal(dynB, wantQ) {
 			rep.Inconclusive(prop, "reference-ambiguous(dynamicpb!=spec)")
 			if len(rep.Notes) < 10 {
@@ -284,7 +291,7 @@ func wireCase(rep *Report, s *glue.Subject, d MD, idx int) {
 		// re-encoding emits the known fields then the unknown bytes unchanged
 		var re []byte
 		var merr error
-		pan, pmsg = safely(func() { re, merr = detOpts.Marshal(S) })
+		pan, pmsg = safely(func() { re, merr = proto.MarshalOptions{Deterministic: true, AllowPartial: partial}.Marshal(S) })
 		if pan || merr != nil {
 			rep.Violate(prop, "wire/remarshal-fails", tn, fmt.Sprintf("Marshal of decoded message: err=%v %s", merr, pmsg), rc)
 		} else if !bytes.Equal(re, want) {
@@ -339,14 +346,17 @@ func wireCase(rep *Report, s *glue.Subject, d MD, idx int) {
 	}
 }
 
+// wireAllowPartial: the current case decodes with AllowPartial (set by wireCase; the codec engine leaves it false).
+var wireAllowPartial bool
+
 // unmarshalVia decodes b into m through one of the entry points of the generated decoder.
 func unmarshalVia(entry int, b []byte, m proto.Message, merge, discard bool) error {
 	if entry < 2 {
-		return proto.UnmarshalOptions{Merge: merge, DiscardUnknown: discard}.Unmarshal(b, m)
+		return proto.UnmarshalOptions{Merge: merge, DiscardUnknown: discard, AllowPartial: wireAllowPartial}.Unmarshal(b, m)
 	}
 	pm := m.ProtoReflect().ProtoMethods()
 	if pm == nil || pm.Unmarshal == nil {
-		return proto.UnmarshalOptions{Merge: merge, DiscardUnknown: discard}.Unmarshal(b, m)
+		return proto.UnmarshalOptions{Merge: merge, DiscardUnknown: discard, AllowPartial: wireAllowPartial}.Unmarshal(b, m)
 	}
 	if !merge {
 		proto.Reset(m)
